@@ -147,8 +147,21 @@ pub fn decorated_doc(g: G) -> BoxedStrategy<(Doc, usize)> {
 
 /// Minimised cases must stay inside the generated domain: every rule has a selector with at
 /// least one compound and at least one declaration.
+pub fn complex_valid(s: &Complex) -> bool {
+    use crate::cssgen::Part;
+    !s.steps.is_empty()
+        && s.steps.iter().all(|(_, c)| {
+            c.elem.as_ref().map(|e| !e.is_empty() && (e == "*" || e.chars().all(|ch| ch.is_ascii_alphanumeric()))).unwrap_or(true)
+                && (c.elem.is_some() || !c.parts.is_empty())
+                && c.parts.iter().all(|p| match p {
+                    Part::Class(x) | Part::Id(x) => !x.is_empty() && x.chars().all(|ch| ch.is_ascii_alphanumeric()),
+                    Part::Nth(_) => true,
+                })
+        })
+}
+
 pub fn styling_valid(st: &Styling) -> bool {
     [&st.agent, &st.user, &st.author]
         .iter()
-        .all(|sh| sh.iter().all(|r| !r.selectors.is_empty() && !r.decls.is_empty() && r.selectors.iter().all(|s| !s.steps.is_empty())))
+        .all(|sh| sh.iter().all(|r| !r.selectors.is_empty() && !r.decls.is_empty() && r.selectors.iter().all(complex_valid)))
 }
